@@ -2,7 +2,7 @@
    Directives: ExtrOcamlBasic (bool, option, list, prod, unit, sumbool, sumor),
    ExtrOcamlString (ascii -> char, string -> char list).  No Extract Constant of our own. *)
 From Coq Require Import Extraction ExtrOcamlBasic ExtrOcamlString.
-From Ucg Require Import base.Bytes data.Val prec.Climb env.Collector env.Out.
+From Ucg Require Import base.Bytes data.Val prec.Climb env.Collector env.Out data.Json data.MapJson data.B64 path.Path.
 From UcgGen Require Import PrecTable DocPrecTable.
 
 Extraction Language OCaml.
@@ -21,4 +21,5 @@ Definition out_run (atomic : bool) (pre : fsys) (src : bytes) (outs : list (opti
   (files st, r).
 
 Extraction "model.ml" climb_code spec_doc dec_of_Z
-  test_run exit_code file_spec out_run fs_get with_extension.
+  test_run exit_code file_spec out_run fs_get with_extension
+  json_output json_input json_parse json_print to_json from_json b64_encode b64_decode normalize resolve.
